@@ -1,13 +1,163 @@
-"""Exactness monitors built on the abstract walk oracle (filled in by vt/ref/walks.py)."""
+"""Exactness monitors built on the abstract walk oracle (vt/ref/walks.py).
+
+Only programs of the direct-check fragment are judged (no stack shuffles inside conditions, no conditions carried
+across blocks, no recursion); other programs are skipped and counted.
+"""
+from vt.gen import inputs
+from vt.ref import walks
+
+U64 = (1 << 64) - 1
+NON_DIRECT = {"shuffle", "carry", "recursion"}
+
+
+def eligible(case):
+    return not (set(case.features) & NON_DIRECT)
+
+
+def oracle(case):
+    if getattr(case, "_walks", None) is None:
+        P = walks.Program(case.prog)
+        case._walks = None if P.is_recursive() else P
+        case._walk_cache = {}
+    return case._walks
+
+
+def admitted(case, keyname, v, mode):
+    P = oracle(case)
+    ck = (keyname, v, mode)
+    if ck not in case._walk_cache:
+        case._walk_cache[ck] = P.admitted(walks.Key(keyname), v, mode)
+    return case._walk_cache[ck]
+
+
+def exit_pc(b):
+    return b.exit_instr.line - 2
+
+
+def real_blocks(case):
+    return [b for b in case.function.blocks if b.entry_instr.line < (1 << 16) and exit_pc(b) >= 0]
+
+
+def block_in_multi_site_sub(case, b):
+    P = oracle(case)
+    return P.sub_of.get(exit_pc(b)) in P.multi_site_subs()
+
+
+# ---------------------------------------------------------------- C06: GroupSize / GroupIndex exactness
+
+def size_index_sets(case, mode):
+    """{block first line: (sizes, indices)} per the oracle, coupled by 'index only with a larger size'."""
+    out = {}
+    for b in real_blocks(case):
+        pc = exit_pc(b)
+        sizes = set(v for v in range(1, 17) if pc in admitted(case, "GroupSize", v, mode))
+        idx = set(v for v in range(0, 16) if pc in admitted(case, "GroupIndex", v, mode))
+        idx &= set(range(max(sizes, default=0)))
+        out[b.entry_instr.line] = (sizes, idx)
+    return out
 
 
 def evaluate_sizes(case, ctr, rng):
-    return [], []
+    viols, nt = [], []
+    if not eligible(case) or oracle(case) is None:
+        ctr["exactness_skipped_not_direct"] += 1
+        return viols, nt
+    try:
+        valid = size_index_sets(case, "valid")
+        ci = size_index_sets(case, "ci")
+    except OverflowError:
+        ctr["exactness_skipped_state_space"] += 1
+        return viols, nt
+    ctr["exactness_programs"] += 1
+    fn = case.function
+    for b in real_blocks(case):
+        ln = b.entry_instr.line
+        ctx = fn.transaction_context(b)
+        ts, ti = set(ctx.group_sizes), set(ctx.group_indices)
+        vs, vi = valid[ln]
+        us, ui = ci[ln] if block_in_multi_site_sub(case, b) else valid[ln]
+        ctr["exactness_blocks"] += 1
+        if vs - ts:
+            viols.append({"kind": "size-admitted-but-not-listed", "key": ln, "ckey": "size-exact",
+                          "what": "block at line %d: sizes %s lie on an accepting walk (direct checks read exactly, rest free) but group_sizes=%s" % (ln, sorted(vs - ts), sorted(ts))})
+        if vi - ti:
+            viols.append({"kind": "index-admitted-but-not-listed", "key": ln, "ckey": "index-exact",
+                          "what": "block at line %d: indices %s lie on an accepting walk but group_indices=%s" % (ln, sorted(vi - ti), sorted(ti))})
+        if ts - us:
+            viols.append({"kind": "size-listed-but-not-admitted", "key": ln, "ckey": "size-exact",
+                          "what": "block at line %d: group_sizes lists %s which no accepting walk through the block admits (exact set %s)" % (ln, sorted(ts - us), sorted(us))})
+        if ti - ui:
+            viols.append({"kind": "index-listed-but-not-admitted", "key": ln, "ckey": "index-exact",
+                          "what": "block at line %d: group_indices lists %s which no accepting walk through the block admits (exact set %s)" % (ln, sorted(ti - ui), sorted(ui))})
+    return viols, nt
+
+
+# ---------------------------------------------------------------- C08: converse for address fields
+
+ADDR_FIELDS = {"RekeyTo": "rekeyto", "CloseRemainderTo": "closeto", "AssetCloseTo": "assetcloseto", "Sender": "sender"}
 
 
 def evaluate_addr(case, ctr, rng):
-    return [], []
+    viols, nt = [], []
+    if not eligible(case) or oracle(case) is None or "gtxn" in case.features or "gtxns_abs" in case.features or "gtxns_rel" in case.features:
+        ctr["converse_skipped"] += 1
+        return viols, nt
+    fn = case.function
+    try:
+        for field, attr in ADDR_FIELDS.items():
+            if field not in case.reads.self_fields:
+                continue
+            for b in real_blocks(case):
+                mode = "ci" if block_in_multi_site_sub(case, b) else "valid"
+                pc = exit_pc(b)
+                att = pc in admitted(case, field, ("A", "ATTACKER"), mode)
+                some = att or any(pc in admitted(case, field, ("A", a), mode) for a in ["ZERO", "CREATOR"] + sorted(case.reads.lit_addrs))
+                ctr["converse_blocks"] += 1
+                av = getattr(fn.transaction_context(b), attr)
+                if some and not att:
+                    nt.append("conv:%s:%d:%s" % (hash(case.src) & 0xffffff, b.entry_instr.line, field))
+                    if av.any_addr:
+                        viols.append({"kind": "constrained-field-reported-any", "key": (b.entry_instr.line, field), "ckey": field + "-converse",
+                                      "what": "block at line %d: %s is equality-constrained on every accepting walk through the block (attacker address not admitted) but reported as any address" % (b.entry_instr.line, field)})
+    except OverflowError:
+        ctr["converse_skipped_state_space"] += 1
+    return viols, nt
+
+
+# ---------------------------------------------------------------- C09: clause 2 (a finite bound needs a constraining comparison)
+
+def fee_reps(case):
+    consts = set()
+    for c in case.reads.self_fields.get("Fee", set()):
+        consts.add(c)
+    return inputs.uint_reps(consts, extra=(272000, 272001, U64), limit=24)
 
 
 def evaluate_fee(case, ctr, rng):
-    return [], []
+    viols, nt = [], []
+    if not eligible(case) or oracle(case) is None or any(f in case.features for f in ("gtxn", "gtxns_abs", "gtxns_rel")):
+        ctr["fee_clause2_skipped"] += 1
+        return viols, nt
+    fn = case.function
+    try:
+        for b in real_blocks(case):
+            ctx = fn.transaction_context(b)
+            mode = "ci" if block_in_multi_site_sub(case, b) else "valid"
+            pc = exit_pc(b)
+            ctr["fee_clause2_blocks"] += 1
+            credited = ctx.max_fee_unknown or ctx.max_fee <= 272000
+            if credited and pc in admitted(case, "Fee", U64, mode):
+                # is the block on an accepting walk at all? (a block on no accepting walk legitimately has bound 0)
+                viols.append({"kind": "bound-without-constraint", "key": b.entry_instr.line, "ckey": "fee-clause2",
+                              "what": "block at line %d is credited with max_fee=%s (unknown=%s) although an accepting walk through it admits Fee = 2^64-1 (no Fee comparison constrains it)" % (
+                                  b.entry_instr.line, ctx.max_fee, ctx.max_fee_unknown)})
+            # soundness at the abstract level, over representatives
+            if not ctx.max_fee_unknown:
+                for f in fee_reps(case):
+                    if f > ctx.max_fee and pc in admitted(case, "Fee", f, "valid"):
+                        viols.append({"kind": "fee-admitted-above-bound", "key": b.entry_instr.line, "ckey": "fee-exact",
+                                      "what": "block at line %d: Fee %d lies on an accepting walk (direct checks exact, rest free) but max_fee=%d" % (b.entry_instr.line, f, ctx.max_fee)})
+                        break
+    except OverflowError:
+        ctr["fee_clause2_skipped_state_space"] += 1
+    return viols, nt
